@@ -6,6 +6,7 @@ package c02
 import (
 	"go/token"
 	"math"
+	"os"
 	"strings"
 
 	"verif/harness/gobatch"
@@ -67,16 +68,16 @@ func specialComponent(k kindT, v val, neg bool) bool {
 // knownCompile: the whole cell belongs to a known finding.
 func knownCompile(c *cell) string {
 	k := c.t.k
-	if rec.Known("F-C02-2") && c.op.text == "^=" && !isVarFamily(c.sh) {
+	if isKnown("F-C02-2") && c.op.text == "^=" && !isVarFamily(c.sh) {
 		return "F-C02-2"
 	}
-	if rec.Known("F-C02-3") && c.op.cls == "shift" && !isVarFamily(c.sh) {
+	if isKnown("F-C02-3") && c.op.cls == "shift" && !isVarFamily(c.sh) {
 		return "F-C02-3"
 	}
-	if rec.Known("F-C02-8") && c.op.text == "/=" && c.isConst() && isFloaty(k) && isZeroVal(k, c.c) {
+	if isKnown("F-C02-8") && c.op.text == "/=" && c.isConst() && isFloaty(k) && isZeroVal(k, c.c) {
 		return "F-C02-8"
 	}
-	if rec.Known("F-C02-10") && k.Name() == "complex128" && strings.Contains(c.sh.setup, "&x") {
+	if isKnown("F-C02-10") && k.Name() == "complex128" && strings.Contains(c.sh.setup, "&x") {
 		return "F-C02-10"
 	}
 	return ""
@@ -86,14 +87,14 @@ func knownCompile(c *cell) string {
 func knownPair(c *cell, a, y val, ex expect) string {
 	k := c.t.k
 	if c.isConst() && c.op.text == "/=" && isIntClass(k) {
-		if rec.Known("F-C02-5") && c.sh.family == "var-global-boxed" && isPow2Const(k, c.c) {
+		if isKnown("F-C02-5") && c.sh.family == "var-global-boxed" && isPow2Const(k, c.c) {
 			return "F-C02-5"
 		}
-		if rec.Known("F-C02-6") && k.Class() == cUint && isVarFamily(c.sh) && c.c == minusOneOrMax(k) {
+		if isKnown("F-C02-6") && k.Class() == cUint && isVarFamily(c.sh) && c.c == minusOneOrMax(k) {
 			return "F-C02-6"
 		}
 	}
-	if rec.Known("F-C02-7") && c.isConst() && isFloaty(k) && c.op.cls == "arith" {
+	if isKnown("F-C02-7") && c.isConst() && isFloaty(k) && c.op.cls == "arith" {
 		one, mone := oneOf(k), val{f: -1, c: -1}
 		if k.Class() == cFloat {
 			mone = val{f: -1}
@@ -120,14 +121,14 @@ func knownPair(c *cell, a, y val, ex expect) string {
 		}
 	}
 	if c.sh.family == "map-elem-absent" && c.isConst() {
-		if rec.Known("F-C02-4") && identityConst(c) {
+		if isKnown("F-C02-4") && identityConst(c) {
 			return "F-C02-4"
 		}
-		if rec.Known("F-C02-11") && c.op.text == "/=" && isIntClass(k) && isPow2Const(k, c.c) {
+		if isKnown("F-C02-11") && c.op.text == "/=" && isIntClass(k) && isPow2Const(k, c.c) {
 			return "F-C02-11"
 		}
 	}
-	if rec.Known("F-C02-9") && readsUint64FarUp(c) {
+	if isKnown("F-C02-9") && readsUint64FarUp(c) {
 		return "F-C02-9"
 	}
 	return ""
@@ -177,3 +178,14 @@ func readsUint64FarUp(c *cell) bool {
 }
 
 func knownSeq(p gobatch.Program, got, want gobatch.Result) string { return "" }
+
+// isKnown is rec.Known, except for the ids listed in C02_ASSUME_FIXED (comma separated):
+// used to verify a proposed fix in a scratch worktree before the entry's status changes.
+func isKnown(id string) bool {
+	for _, f := range strings.Split(os.Getenv("C02_ASSUME_FIXED"), ",") {
+		if f == id {
+			return false
+		}
+	}
+	return rec.Known(id)
+}
